@@ -32,8 +32,11 @@ class Node:
 SFN_CHARS = "ABCDEFGHIJKLMNOPQRSTUVWXYZ0123456789!#$%&'()-@^_`{}~"
 
 class Builder:
-    def __init__(self, rng):
+    def __init__(self, rng, force_top=None):
+        """force_top = 12 | 16: a volume with exactly the maximal cluster count of that FAT width (4084 / 65524) holding a file
+        TOPCHAIN.BIN whose chain runs THROUGH the highest cluster number (0xFF5 / 0xFFF5) - a legal link value on such a volume"""
         self.r = rng
+        self.force_top = force_top
 
     def pick_geometry(self):
         r = self.r
@@ -48,9 +51,11 @@ class Builder:
         # volumes at the upper end of their FAT width: the highest cluster numbers (FAT12 0xFF0..0xFF5, FAT16 0xFFF0..0xFFF5) are
         # ordinary clusters there, although the same bit patterns are "reserved values" in tables of smaller volumes
         self.maxfat = self.bits in (12, 16) and r.chance(1, 4)
+        if self.force_top:
+            self.bits = self.force_top; self.maxfat = True
         if self.maxfat:
             self.spc = 1
-            self.clusters = (4084 if self.bits == 12 else 65524) - r.below(4)
+            self.clusters = (4084 if self.bits == 12 else 65524) - (0 if self.force_top else r.below(4))
         self.fats = r.choice([1, 2, 2, 3])
         self.reserved = r.range(1, 5) if self.bits != 32 else r.choice([8, 16, 32])
         self.root_entries = 0 if self.bits == 32 else r.choice([1, 2, 4, 16]) * (self.bps // 32)
@@ -164,6 +169,10 @@ class Builder:
                     fill(n, depth + 1)
                 d.children.append(n)
         fill(self.root, 0)
+        if self.force_top:
+            n = Node("file"); n.sfn = b"TOPCHAINBIN"; n.attr = 0x20
+            n.content = bytes((i * 11 + 5) & 0xFF for i in range(3 * self.cs + r.range(1, self.cs)))
+            self.root.children.insert(r.below(len(self.root.children) + 1), n)
         # nearly full volumes (FAT12 only: small enough): one filler file takes all but a few of the remaining clusters, so
         # that a later allocation scan runs to the very end of the table (spare entries after the last cluster are zero here)
         self.nearfull = self.bits == 12 and not self.maxfat and self.cs <= 4096 and r.chance(1, 3)     # filler stays below the read limit of the traversal
@@ -249,7 +258,16 @@ class Builder:
                 if i == label_at:
                     slots.append(self.label_slot()); self.has_label = True
                 slots += self.junk_slots()
-                if n.kind == "file":
+                if n.kind == "file" and n.sfn == b"TOPCHAINBIN":
+                    # through the highest cluster number, in the middle and as the last link
+                    last = self.clusters + 1
+                    self.free = [c for c in self.free if c not in (last, last - 1)]
+                    a = self.alloc_chain(1); b_ = self.alloc_chain(1)
+                    n.chain = a + [last] + b_ + [last - 1]
+                    for x, y in zip(n.chain, n.chain[1:]):
+                        self.fat[x] = y
+                    self.fat[n.chain[-1]] = {12: 0xFFF, 16: 0xFFFF}[self.bits]
+                elif n.kind == "file":
                     n.chain = self.alloc_chain((len(n.content) + self.cs - 1) // self.cs)
                 else:
                     # a directory needs its chain before its own slots (dot entry) are known: count first
